@@ -36,6 +36,7 @@ import (
 	"context"
 	"errors"
 	"fmt"
+	"math"
 	"strconv"
 
 	"github.com/cloudwego/dynamicgo/internal/json"
@@ -200,6 +201,9 @@ func appendInt(p *thrift.BinaryProtocol, typ thrift.Type, out *[]byte) error {
 		i, err := p.ReadDouble()
 		if err != nil {
 			return err
+		}
+		if math.IsNaN(i) || math.IsInf(i, 0) {
+			return fmt.Errorf("a non-finite double (NaN, Inf) cannot be represented in JSON")
 		}
 		*out = json.EncodeFloat64(*out, float64(i))
 	case thrift.STRING:
